@@ -72,7 +72,7 @@ func run(r *core.Run) {
 
 func indexCases(r *core.Run) {
 	rd := r.Rand
-	n := r.N(40, 1500)
+	n := r.N(150, 4000)
 	for i := 0; i < n; i++ {
 		w := newWorld(rd)
 		kind := core.Pick(rd, []string{"struct", "block"})
@@ -226,12 +226,11 @@ func (w *world) genColumn(r *core.Run, allowHashLike bool) (colSpec, bool) {
 
 func processorCases(r *core.Run) {
 	rd := r.Rand
-	n := r.N(40, 1200)
+	n := r.N(200, 5000)
 	for i := 0; i < n; i++ {
 		w := newWorld(rd)
-		// hash-like plaintexts trip the processor's cross-column state (known finding): keep them to
-		// a dedicated share of the cases so that the rest exercises ordinary rows
-		hl := rd.Chance(25)
+		// plaintexts that themselves look like a blind index (the processor's cross-column state defect)
+		hl := rd.Chance(50)
 		nc := 1 + rd.Intn(4)
 		var cols []colSpec
 		r.Begin(fmt.Sprintf("row-%d", i), true, "case:row", fmt.Sprintf("cols:%d", nc))
@@ -320,7 +319,7 @@ func checkRow(r *core.Run, w *world, cols []colSpec) {
 
 func translatorCases(r *core.Run) {
 	rd := r.Rand
-	n := r.N(20, 600)
+	n := r.N(80, 2000)
 	for i := 0; i < n; i++ {
 		w := newWorld(rd)
 		kind := core.Pick(rd, []string{"struct", "block"})
